@@ -292,6 +292,24 @@ def run_case(case, ctx):
                 ctx.check("C13.argument-form", bool(ok), {"form": form}, tags)
             except Exception as e:  # noqa
                 ctx.check("C13.argument-form", False, {"form": form, "exc": repr(e)[:200]}, tags)
+    # documented short form of the 3-d class: the polar angle may be omitted and then counts as 0
+    if cls == "3d" and case["eps"] in (1e-4, 0.05):
+        try:
+            th = np.array(TH, float)
+            zero = np.zeros_like(th)
+            ok = True
+            for fn in ("interface_distance", "interface_curvature", "interface_position"):
+                one = np.asarray(getattr(drop, fn)(th), float)
+                two = np.asarray(getattr(drop, fn)(th, zero), float)
+                ok = ok and one.shape == two.shape and bool(np.array_equal(one, two))
+                ctx.op(2)
+            own = harm.rho3d(R, amps, th, zero)
+            ok2 = bool(np.allclose(np.asarray(drop.interface_distance(th), float), own, rtol=1e-12, atol=0))
+            ctx.check("C13.argument-form", ok and ok2, {"form": "polar angle omitted", "same_as_explicit_zero": ok, "same_as_own_series": ok2}, tags)
+            if any(a != 0 for k, a in enumerate(amps, 1) if harm.lm(k)[1] == 0):
+                ctx.count("polar-angle-omitted-with-zonal-mode")
+        except Exception as e:  # noqa
+            ctx.check("C13.argument-form", False, {"form": "polar angle omitted", "exc": repr(e)[:200]}, tags)
     # a caller may keep ONE buffer per angle and overwrite it between calls: the result must follow the contents, not the object
     if nz and case["eps"] in (1e-4, 0.05):
         try:
@@ -402,5 +420,5 @@ def run_case(case, ctx):
 
 
 def expected_positive(tier):
-    return ["C13.shape-function", "C13.position", "C13.triangulation", "C13.curvature-1st", "C13.volume-1st", "C13.volume", "C13.surface", "C13.sphere-limit", "C13.argument-form",
+    return ["C13.shape-function", "C13.position", "C13.triangulation", "C13.curvature-1st", "C13.volume-1st", "C13.volume", "C13.surface", "C13.sphere-limit", "C13.argument-form", "polar-angle-omitted-with-zonal-mode",
             "non-zero-amplitudes", "several-simultaneous-modes", "C13.state-independent", "mutation-sequences"]
